@@ -108,7 +108,10 @@ func failingStatements(w *world, maxM int) []failStmt {
 		out = append(out,
 			failStmt{SQL: "UPDATE t5 SET c = 'q' WHERE a > 0", Class: "update/where-errors-on-later-row", K: 0, M: len(t5.Rows)},
 			failStmt{SQL: "DELETE FROM t5 WHERE a > 0", Class: "delete/where-errors-on-later-row", K: 0, M: len(t5.Rows)},
-			failStmt{SQL: "UPDATE t5 SET c = 'q' WHERE a > 0 AND c = 'r1'", Class: "update/where-errors-on-later-row", K: 0, M: len(t5.Rows)})
+			failStmt{SQL: "UPDATE t5 SET c = 'q' WHERE a > 0 AND c = 'r1'", Class: "update/where-errors-on-later-row", K: 0, M: len(t5.Rows)},
+			// valid: sets a column that is NULL in a later row (expected to succeed; if it is failed half way, nothing may have changed)
+			failStmt{SQL: "UPDATE t5 SET a = 9", Class: "valid/update-column-null-in-a-later-row", K: 0, M: len(t5.Rows)},
+			failStmt{SQL: "UPDATE t5 SET a = 9, c = 'w'", Class: "valid/update-column-null-in-a-later-row", K: 0, M: len(t5.Rows)})
 	}
 	// UPDATE overflowing the row limit on the k-th matching row only: t4 has one long row
 	if t4, ok := w.model.Tables["t4"]; ok {
